@@ -104,6 +104,7 @@ var Corpus = []CorpusEntry{
 
 // CorpusD3: for some entries, another document (of a different size) on which the path also succeeds.
 var CorpusD3 = map[string]string{
+	`$[-1]`:                `[7,8,9]`,
 	`$[-2:]`:               `[4,5]`,
 	`$[-3:-1]`:             `[5,6,7]`,
 	`$.*`:                  `{"c":3,"b":2,"a":1}`,
